@@ -398,6 +398,8 @@ cdef class ParticleArray:
         tag_def_values = self.default_values['tag']
         self.default_values.clear()
         self.default_values = {'tag':tag_def_values, 'pid':0, 'gid':_UINT_MAX}
+        self.stride.clear()
+        self.num_real_particles = 0
 
     cpdef set_time(self, double time):
         self.time = time
@@ -654,7 +656,12 @@ cdef class ParticleArray:
 
         if update_constants:
             for const in parray.constants:
-                self.constants.setdefault(const, parray.constants[const])
+                if const not in self.constants:
+                    # a copy: the two arrays must not share the constant.
+                    self.constants[const] = \
+                        self._create_c_array_from_npy_array(
+                            parray.constants[const].get_npy_array()
+                        )
 
         if num_extra_particles > 0 and align:
             self.align_particles()
